@@ -26,6 +26,7 @@ import Qvnt.Lemmas.GenInt.toE_exToRes
 import Qvnt.Lemmas.GenInt.eq_toE_of_exToRes
 import Qvnt.Lemmas.GenInt.bind_ok_self
 import Qvnt.Lemmas.GenInt.MacrosDisjoint
+import Qvnt.Lemmas.GenInt.MacrosInv
 import Qvnt.Lemmas.GenInt.mapExtend_disjoint
 import Qvnt.Lemmas.GenInt.mapGet_eq_lookupLast
 import Qvnt.Lemmas.GenInt.mapInsert_fresh
@@ -39,7 +40,7 @@ import Qvnt.Lemmas.GenInt.int_process_node_eq
 import Qvnt.Lemmas.GenInt.bind_ok_eta
 import Qvnt.Lemmas.GenInt.res_match_ok
 import Qvnt.Lemmas.GenInt.processApply_macros
-import Qvnt.Lemmas.GenInt.processNode_disjoint
+import Qvnt.Lemmas.GenInt.processNode_inv
 import Qvnt.Lemmas.GenInt.foldlM_process
 import Qvnt.Lemmas.GenInt.int_process_nodes_eq
 import Qvnt.Lemmas.GenInt.int_ast_changes_eq
